@@ -1,7 +1,7 @@
 """C18 Each cipher stream in a file starts from its own seed-dependent IV."""
 from .common import combined
 LEVEL = 'other'
-RULES = ('R18.a', 'R18.c', 'R02.c', 'R07.d', 'R07.e', 'R07.t', 'R10.c', 'R10.s', 'R10.i', 'R18.s', 'R18.w')
+RULES = ('R18.a', 'R18.c', 'R02.c', 'R07.d', 'R07.e', 'R07.t', 'R10.c', 'R10.s', 'R10.i', 'R18.s', 'R18.w', 'R18.m')
 
 
 def run(prog, rec, tier):
@@ -10,6 +10,7 @@ def run(prog, rec, tier):
     C_ = cli_rules.CliRules(prog, rec)
     C_.parser()
     C_.interactive()
+    C_.exit_mapping()
     combined(prog, rec, tier, RULES, driver=('layout', 'reader'), hash=('drivers', 'finaliser'), compress=True, modes=('counter', 'steps'),
              explanation='For every T: the IV pointer that reaches the constructor of stream k must be slot k of the same array that is '
              'written to / read from the header; the array is filled by the chain iv[0]=H(seed over its full strlen), iv[i]=H(iv[i-1]).')
